@@ -15,6 +15,19 @@ add("C20", "property-based round trip + metamorphic re-layout + byte fuzzing (ra
     "Trusts Go's strconv and the harness comparison. Domain restricted to what the property states (no quotes/backslashes/line breaks in strings, not 'true'/'false', finite floats); an empty 'default' table and single values above bufio.Scanner's 64 KiB line limit are not generated.",
     "DESIGN.md §4 C20")
 
+add("C11", "exhaustive enumeration of (S,T,position) + rapid over source forms/positions; oracle = representability arithmetic",
+    "All 17x17 ordered pairs of numeric types x 6 assignment-like positions are enumerated on every run through the real CLI (`ferret -t`), plus rapid-generated combinations of 16 positions x 13 source-expression forms; a conversion counts as accepted only if a whole compilation containing it succeeds. Each accepted implicit conversion is checked against representability computed from integer ranges and float significand/exponent widths. Exploration; exhaustive over the pair x basic-position space, sampled over the rest.",
+    "Trusts the float format table stated in the evidence assumptions (f32 24, f64 53, f128 113, f256 237 significand bits) and the diagnostic line attribution of the CLI. Rejecting a lossless conversion is allowed by the property.",
+    "DESIGN.md §4 C11")
+add("C16", "differential property-based testing against math/big (rapid) over an ASan/UBSan co-process; libFuzzer in thorough",
+    "Generated operations on i128/u128/i256/u256 (by-value and *_ptr entry points; limb-pattern, boundary and related operands) are executed by the real runtime/core/bigint.c built with ASan+UBSan in a 64-bit-limb and a 32-bit-limb configuration and compared with math/big reduced mod 2^N. Exploration: hundreds of thousands of distinct non-trivial operations per quick run.",
+    "Trusts math/big and the hex marshalling in cdrv/bigint_drv.c. Division by zero, negative exponents, shift counts outside [0,N) and '-' text for unsigned types are treated as unspecified and skipped.",
+    "DESIGN.md §4 C16")
+add("C17", "model-based (stateful) property testing: generated operation histories vs Go map/slice model, ASan/UBSan co-process",
+    "Generated histories of map (i32/i64/str/bytes keys, 5 value sizes, from_pairs with duplicates, set/get/get_optional_out/has/unwrap_or/size/iterate) and dynamic array (append/get/set/resize/len with out-of-range indices) operations run against the real runtime C code built with ASan+UBSan; the abstract-map/list invariant is checked after every step and any sanitizer report is a violation. Exploration.",
+    "Trusts the Go model and the marshalling in cdrv/maparr_drv.c. Leaks and allocation-failure paths are out of scope.",
+    "DESIGN.md §4 C17")
+
 def main():
     props = [json.loads(l) for l in open(os.path.join(V, "properties.jsonl"))]
     checks, na = [], []
